@@ -112,7 +112,7 @@ fn scan_buffer(scan: &mut Scan, buf: &Buffer) {
 }
 
 /// an IcyDraw file around hand-made chunks (PNG frame taken from a seed written by the engine)
-fn icy_file(frame: &[u8], chunks: &[(String, Vec<u8>)]) -> Vec<u8> {
+pub fn icy_file(frame: &[u8], chunks: &[(String, Vec<u8>)]) -> Vec<u8> {
     let parts = files::png_split(frame).unwrap_or_default();
     let mut out = Vec::new();
     let mut inserted = false;
@@ -139,11 +139,11 @@ fn icy_file(frame: &[u8], chunks: &[(String, Vec<u8>)]) -> Vec<u8> {
     files::png_join(&out)
 }
 
-fn layer_header(title: &[u8], w: i32, h: i32, data_len: u64) -> Vec<u8> {
+pub fn layer_header(title: &[u8], w: i32, h: i32, data_len: u64) -> Vec<u8> {
     layer_header_fp(title, w, h, data_len, 0)
 }
 
-fn layer_header_fp(title: &[u8], w: i32, h: i32, data_len: u64, font_page: u16) -> Vec<u8> {
+pub fn layer_header_fp(title: &[u8], w: i32, h: i32, data_len: u64, font_page: u16) -> Vec<u8> {
     let mut p = Vec::new();
     p.extend((title.len() as u32).to_le_bytes());
     p.extend_from_slice(title);
@@ -162,7 +162,7 @@ fn layer_header_fp(title: &[u8], w: i32, h: i32, data_len: u64, font_page: u16) 
     p
 }
 
-fn long_cell(ch: u32) -> Vec<u8> {
+pub fn long_cell(ch: u32) -> Vec<u8> {
     let mut c = Vec::new();
     c.extend(0u16.to_le_bytes()); // attr without SHORT_DATA => long form
     c.extend(ch.to_le_bytes());
